@@ -106,7 +106,7 @@ def reader_check(ctx, prop):
     n_garb = {"C06": (0, 0), "C07": (150, 1500), "C08": (200, 2000), "C09": (25, 250), "C11": (60, 600), "C12": (80, 800)}[prop][1 if big else 0]
 
     def cfgmix():
-        return {"msgmode": rng.choice((0, 0, 0, 1, 2, 3)), "validate": rng.choice((1, 1, 1, 0)), "pbf": rng.choice((1, 0))}
+        return {"msgmode": rng.choice((0, 0, 0, 1, 2, 3)), "validate": rng.choice((1, 1, 1, 0)), "pbf": rng.choice((1, 0)), "labelmsm": rng.choice((1, 1, 2))}
 
     def gen_small():
         for S in st.alphabet_streams(alpha_len):
